@@ -346,6 +346,8 @@ impl Gen {
     fn plan_many_buckets(&mut self, committed: &MBucket) {
         *self.macros_used.entry("many_buckets").or_default() += 1;
         let parent: Path = match self.pick_path(committed, true) {
+            // top-level buckets: the root bucket's own tree grows leaves and branches
+            _ if self.r.chance(1, 4) => vec![],
             Some(p) if p.len() <= 2 && self.r.chance(2, 3) => p,
             _ => {
                 let name = self.bucket_name();
